@@ -63,7 +63,9 @@ func classifyErr(err error, res *HostResult) {
 	switch {
 	case errors.As(err, &re):
 		res.ErrType, res.ErrCode = "request-error", string(re.Code)
-		res.ErrMsg = re.Err.Error()
+		if re.Err != nil {
+			res.ErrMsg = re.Err.Error()
+		}
 	case errors.As(err, &ef):
 		res.ErrType = "executable-file"
 	case errors.As(err, &mf):
